@@ -31,10 +31,42 @@ pub enum Src {
     IterUnknown,
     /// boxed by-value iterator that never ends; `len` is ignored
     IterEndless,
+    /// std collections by value (`into_par()`): ConIterOfIter over the collection's IntoIter
+    Deque,
+    List,
+    BSet,
+    Heap,
+    /// `BTreeMap<u32, Tok>::into_par()`, items are (key, value) pairs, followed by a map to the value
+    BMap,
+    /// std collections by reference (`par()`), followed by `.cloned()` (BMapRef: by a map cloning the value)
+    DequeRef,
+    ListRef,
+    BSetRef,
+    HeapRef,
+    BMapRef,
 }
 
 impl Src {
     pub const ALL_FINITE: [Src; 5] = [Src::Vec, Src::SliceCloned, Src::Range, Src::IterExact, Src::IterUnknown];
+    pub const COLLECTIONS: [Src; 10] = [
+        Src::Deque,
+        Src::List,
+        Src::BSet,
+        Src::Heap,
+        Src::BMap,
+        Src::DequeRef,
+        Src::ListRef,
+        Src::BSetRef,
+        Src::HeapRef,
+        Src::BMapRef,
+    ];
+    pub fn is_collection(&self) -> bool {
+        Src::COLLECTIONS.contains(self)
+    }
+    /// by-reference std collection: the items are cloned by the first stage
+    pub fn is_collection_ref(&self) -> bool {
+        matches!(self, Src::DequeRef | Src::ListRef | Src::BSetRef | Src::HeapRef | Src::BMapRef)
+    }
     pub fn name(&self) -> &'static str {
         match self {
             Src::Vec => "vec",
@@ -43,6 +75,16 @@ impl Src {
             Src::IterExact => "iterexact",
             Src::IterUnknown => "iterunknown",
             Src::IterEndless => "iterendless",
+            Src::Deque => "deque",
+            Src::List => "list",
+            Src::BSet => "bset",
+            Src::Heap => "heap",
+            Src::BMap => "bmap",
+            Src::DequeRef => "dequeref",
+            Src::ListRef => "listref",
+            Src::BSetRef => "bsetref",
+            Src::HeapRef => "heapref",
+            Src::BMapRef => "bmapref",
         }
     }
     pub fn parse(s: &str) -> Option<Src> {
@@ -53,6 +95,16 @@ impl Src {
             "iterexact" => Src::IterExact,
             "iterunknown" => Src::IterUnknown,
             "iterendless" => Src::IterEndless,
+            "deque" => Src::Deque,
+            "list" => Src::List,
+            "bset" => Src::BSet,
+            "heap" => Src::Heap,
+            "bmap" => Src::BMap,
+            "dequeref" => Src::DequeRef,
+            "listref" => Src::ListRef,
+            "bsetref" => Src::BSetRef,
+            "heapref" => Src::HeapRef,
+            "bmapref" => Src::BMapRef,
             _ => return None,
         })
     }
@@ -61,14 +113,18 @@ impl Src {
     }
     /// sources whose elements are owned by the pipeline
     pub fn is_owning(&self) -> bool {
-        !matches!(self, Src::SliceCloned)
+        !matches!(self, Src::SliceCloned) && !self.is_collection_ref()
     }
     pub fn known_len(&self) -> bool {
-        matches!(self, Src::Vec | Src::SliceCloned | Src::Range | Src::IterExact)
+        matches!(self, Src::Vec | Src::SliceCloned | Src::Range | Src::IterExact) || self.is_collection()
     }
     /// the source goes through a map stage (stage 0) before the chain
     pub fn has_adaptor(&self) -> bool {
-        matches!(self, Src::SliceCloned | Src::Range)
+        matches!(self, Src::SliceCloned | Src::Range | Src::BMap) || self.is_collection_ref()
+    }
+    /// the first stage clones the element (Clone events instead of stage-0 calls)
+    pub fn clones(&self) -> bool {
+        matches!(self, Src::SliceCloned) || self.is_collection_ref()
     }
 }
 
@@ -331,6 +387,61 @@ pub fn clone_fn(x: RTok) -> RTok {
     let mut d = x;
     d.id = crate::tok::clone_id(x.id);
     d
+}
+
+/// ordering wrapper that mirrors `Tok`'s `Ord` (by value only) for the reference copies of the ordered collections
+#[derive(Clone, Copy, Debug)]
+pub struct ByVal(pub i64, pub usize);
+impl PartialEq for ByVal {
+    fn eq(&self, o: &Self) -> bool {
+        self.0 == o.0
+    }
+}
+impl Eq for ByVal {}
+impl PartialOrd for ByVal {
+    fn partial_cmp(&self, o: &Self) -> Option<std::cmp::Ordering> {
+        Some(self.cmp(o))
+    }
+}
+impl Ord for ByVal {
+    fn cmp(&self, o: &Self) -> std::cmp::Ordering {
+        self.0.cmp(&o.0)
+    }
+}
+
+/// key of element i in the BTreeMap sources: scattered, with occasional collisions (a later insert replaces)
+pub fn bmap_key(i: usize) -> u32 {
+    (mix(0xB3A9, i as u64, 1) % 997) as u32
+}
+
+/// The order in which the source yields the input elements: indices into `vals`. Identity for sequences;
+/// for the ordered std collections it is what the same std collection, filled in the same way, iterates in.
+pub fn source_order(src: Src, vals: &[i64]) -> Vec<usize> {
+    use std::collections::{BTreeMap, BTreeSet, BinaryHeap};
+    match src {
+        Src::BSet | Src::BSetRef => {
+            let mut s: BTreeSet<ByVal> = BTreeSet::new();
+            for (i, v) in vals.iter().enumerate() {
+                s.insert(ByVal(*v, i));
+            }
+            s.into_iter().map(|x| x.1).collect()
+        }
+        Src::Heap | Src::HeapRef => {
+            let mut h: BinaryHeap<ByVal> = BinaryHeap::new();
+            for (i, v) in vals.iter().enumerate() {
+                h.push(ByVal(*v, i));
+            }
+            h.into_iter().map(|x| x.1).collect()
+        }
+        Src::BMap | Src::BMapRef => {
+            let mut m: BTreeMap<u32, usize> = BTreeMap::new();
+            for i in 0..vals.len() {
+                m.insert(bmap_key(i), i);
+            }
+            m.into_iter().map(|x| x.1).collect()
+        }
+        _ => (0..vals.len()).collect(),
+    }
 }
 
 // ---------------------------------------------------------------------------------------------
